@@ -326,8 +326,8 @@ func NewStringType() Type {
 		signatureIDL: "str",
 		typeName:     jen.String(),
 		marshal: func(id string, writer string) *Statement {
-			return jen.Id("basic.WriteString").Call(jen.Id(id),
-				jen.Id(writer))
+			return jen.Qual("github.com/lugu/qiloop/type/basic",
+				"WriteString").Call(jen.Id(id), jen.Id(writer))
 		},
 		unmarshal: func(reader string) *Statement {
 			return jen.Qual("github.com/lugu/qiloop/type/basic",
@@ -545,7 +545,9 @@ func (l *ListType) Unmarshal(reader string) *Statement {
 		jen.Id("b").Index().Add(l.value.TypeName()),
 		jen.Err().Error(),
 	).Block(
-		jen.Id("size, err := basic.ReadUint32").Call(jen.Id(reader)),
+		jen.List(jen.Id("size"), jen.Err()).Op(":=").Qual(
+			"github.com/lugu/qiloop/type/basic", "ReadUint32",
+		).Call(jen.Id(reader)),
 		jen.If(jen.Id("err != nil")).Block(
 			jen.Return(jen.Id("b"), jen.Qual("fmt", "Errorf").Call(jen.Id(`"read slice size: %s", err`)))),
 		jen.Id("b").Op("=").Id("make").Call(l.TypeName(), jen.Id("size")),
@@ -666,7 +668,9 @@ func (m *MapType) Unmarshal(reader string) *Statement {
 		jen.Id("m").Map(m.key.TypeName()).Add(m.value.TypeName()),
 		jen.Err().Error(),
 	).Block(
-		jen.Id("size, err := basic.ReadUint32").Call(jen.Id(reader)),
+		jen.List(jen.Id("size"), jen.Err()).Op(":=").Qual(
+			"github.com/lugu/qiloop/type/basic", "ReadUint32",
+		).Call(jen.Id(reader)),
 		jen.If(jen.Id("err != nil")).Block(
 			jen.Return(jen.Id("m"), jen.Qual("fmt", "Errorf").Call(jen.Id(`"read map size: %s", err`)))),
 		jen.Id("m").Op("=").Id("make").Call(m.TypeName(), jen.Id("size")),
